@@ -412,6 +412,37 @@ func registerReflectModel(e *Engine) {
 		}
 		return BoolT(types.ConvertibleTo(g1, g2))
 	})
+	sigOf := func(st *State, rt *RType, what string) *types.Signature {
+		if rt.GoType != nil {
+			if sg, ok := rt.GoType.Underlying().(*types.Signature); ok {
+				return sg
+			}
+		}
+		st.rpanic("reflect: %s of non-func type", what)
+		return nil
+	}
+	idx := func(st *State, v Value, n int, what string) int {
+		i := st.concreteInt(v, what)
+		if i < 0 || i >= n {
+			st.rpanic("reflect: %s index out of range", what)
+		}
+		return i
+	}
+	tm("IsVariadic", func(st *State, rt *RType, a []Value) Value { return BoolT(sigOf(st, rt, "IsVariadic").Variadic()) })
+	tm("NumIn", func(st *State, rt *RType, a []Value) Value {
+		return st.E.intTerm(big.NewInt(int64(sigOf(st, rt, "NumIn").Params().Len())), types.Typ[types.Int])
+	})
+	tm("NumOut", func(st *State, rt *RType, a []Value) Value {
+		return st.E.intTerm(big.NewInt(int64(sigOf(st, rt, "NumOut").Results().Len())), types.Typ[types.Int])
+	})
+	tm("In", func(st *State, rt *RType, a []Value) Value {
+		ps := sigOf(st, rt, "In").Params()
+		return rtypeIface(st.E.rtypeOfGo(ps.At(idx(st, a[0], ps.Len(), "In")).Type()))
+	})
+	tm("Out", func(st *State, rt *RType, a []Value) Value {
+		rs := sigOf(st, rt, "Out").Results()
+		return rtypeIface(st.E.rtypeOfGo(rs.At(idx(st, a[0], rs.Len(), "Out")).Type()))
+	})
 	tm("Bits", func(st *State, rt *RType, a []Value) Value {
 		bits := map[int]int64{rkInt: 64, rkInt8: 8, rkInt16: 16, rkInt32: 32, rkInt64: 64, rkUint: 64, rkUint8: 8, rkUint16: 16, rkUint32: 32, rkUint64: 64, rkUintptr: 64, rkFloat32: 32, rkFloat64: 64, rkComplex64: 64, rkComplex128: 128}
 		return st.E.intTerm(big.NewInt(bits[rt.Kind]), types.Typ[types.Int])
